@@ -81,6 +81,8 @@ func main() {
 		os.Exit(cmdReplay(os.Args[2:]))
 	case "setup":
 		os.Exit(cmdSetup())
+	case "selftest":
+		os.Exit(cmdSelftest(os.Args[2:]))
 	default:
 		die(2, "unknown command %q", os.Args[1])
 	}
@@ -583,4 +585,134 @@ func writeEvidence(prop, tier string, seed int64, t summary, distinct, violation
 	}
 	b, _ := json.MarshalIndent(ev, "", " ")
 	os.WriteFile(filepath.Join(verifDir, "evidence", prop+".json"), b, 0o644)
+}
+
+// cmdSelftest validates the simulator itself.
+//
+//	bbsim selftest passthrough   the library's own test-suite, instrumented by the same pass, must pass
+//	                             with the shims delegating to the real primitives (no simulation active)
+//	bbsim selftest determinism   every harness: the same seeds give identical trace hashes in separate
+//	                             processes at GOMAXPROCS 1, 4 and 16
+func cmdSelftest(args []string) int {
+	if len(args) < 1 {
+		die(2, "usage: bbsim selftest passthrough|determinism")
+	}
+	switch args[0] {
+	case "passthrough":
+		return selftestPassthrough()
+	case "determinism":
+		return selftestDeterminism(args[1:])
+	}
+	die(2, "unknown selftest %q", args[0])
+	return 2
+}
+
+func selftestPassthrough() int {
+	scratch, err := os.MkdirTemp("", "bbsim-pt-")
+	if err != nil {
+		die(2, "%v", err)
+	}
+	defer os.RemoveAll(scratch)
+	goroot, _ := exec.Command(goBin, "env", "GOROOT").Output()
+	modcache, _ := exec.Command(goBin, "env", "GOMODCACHE").Output()
+	if _, err := instr.BuildScratch(instr.Scratch{RepoDir: repoDir, VerifDir: verifDir, GoRoot: strings.TrimSpace(string(goroot)),
+		OutDir: scratch, ModCache: strings.TrimSpace(string(modcache)), WithTests: true}); err != nil {
+		fmt.Fprintln(os.Stderr, "bbsim: infrastructure:", err)
+		return 2
+	}
+	cmd := exec.Command(goBin, "test", "-json", "-vet=off", "-count=1", "-timeout", "25m", "./bigbuff")
+	cmd.Dir = scratch
+	cmd.Env = append(goEnv(), "GODEBUG=randseednop=0") // the library's tests seed math/rand (go 1.23 semantics)
+	out, _ := cmd.Output()
+	status := map[string]string{}
+	for _, line := range strings.Split(string(out), "\n") {
+		var ev struct {
+			Action, Test string
+		}
+		if json.Unmarshal([]byte(line), &ev) == nil && ev.Test != "" && (ev.Action == "pass" || ev.Action == "fail" || ev.Action == "skip") {
+			status[ev.Test] = ev.Action
+		}
+	}
+	b, err := os.ReadFile("/root/.vp/BASELINE.json")
+	if err != nil {
+		die(2, "%v", err)
+	}
+	var base struct {
+		Stable []string `json:"stable_pass"`
+	}
+	json.Unmarshal(b, &base)
+	bad, examples := 0, 0
+	for _, name := range base.Stable {
+		n := name[strings.Index(name, "::")+2:]
+		if strings.HasPrefix(n, "Example") && status[n] == "" {
+			examples++ // the pass strips comments, so "// Output:" is gone and examples are compiled but not run
+			continue
+		}
+		if status[n] != "pass" {
+			fmt.Printf("passthrough: %s = %q on the instrumented copy\n", n, status[n])
+			bad++
+		}
+	}
+	fmt.Printf("passthrough: %d/%d baseline tests pass on the instrumented copy (shims delegating to the real primitives); %d examples compiled but not run (comments stripped)\n",
+		len(base.Stable)-bad-examples, len(base.Stable)-examples, examples)
+	if bad > 0 {
+		return 1
+	}
+	return 0
+}
+
+func selftestDeterminism(args []string) int {
+	runs := 400
+	if len(args) > 0 {
+		runs, _ = strconv.Atoi(args[0])
+	}
+	scratch, bin, _, err := buildScratch(false)
+	if scratch != "" {
+		defer os.RemoveAll(scratch)
+	}
+	if err != nil {
+		fmt.Fprintln(os.Stderr, "bbsim: infrastructure:", err)
+		return 2
+	}
+	props := []string{}
+	for i := 1; i <= 20; i++ {
+		props = append(props, fmt.Sprintf("C%02d", i))
+	}
+	bad := 0
+	for _, p := range props {
+		if p == "C11" || p == "C19" {
+			continue
+		}
+		var ref string
+		for _, g := range []string{"1", "4", "16"} {
+			cmd := exec.Command(bin, "-test.run", "^TestWorker$", "-test.timeout", "0", "-prop", p, "-count", strconv.Itoa(runs), "-v2",
+				"-detevery", "0", "-out", os.DevNull, "-replaydir", scratch, "-minimize", "0", "-maxviol", "1000000")
+			cmd.Env = append(os.Environ(), "GOMAXPROCS="+g)
+			out, _ := cmd.CombinedOutput()
+			var lines []string
+			for _, l := range strings.Split(string(out), "\n") {
+				if strings.HasPrefix(l, "run ") {
+					lines = append(lines, l)
+				}
+			}
+			got := strings.Join(lines, "\n")
+			if len(lines) == 0 {
+				fmt.Printf("determinism: %s: no harness / no runs\n", p)
+				break
+			}
+			if ref == "" {
+				ref = got
+			} else if got != ref {
+				fmt.Printf("determinism: %s: GOMAXPROCS=%s differs from GOMAXPROCS=1\n", p, g)
+				bad++
+			}
+		}
+		if ref != "" {
+			fmt.Printf("determinism: %s: %d runs x 3 processes (GOMAXPROCS 1/4/16) identical=%v\n", p, runs, bad == 0)
+		}
+	}
+	if bad > 0 {
+		return 1
+	}
+	return 0
 }
